@@ -51,6 +51,12 @@ def gen_case(rng, i):
         recs[-1]["dt"] = float(np.float32(dt))
         if fam == "diff":
             recs[-1]["dt"] = dt
+    if rng.random() < 0.18:
+        # a recording with a gap or a clipped sample (NaN / +-inf in one horizontal or in the vertical): whatever process() makes of it -- a curve or a refusal --
+        # the caller's samples stay what they were
+        k = int(rng.integers(0, nrec)); comp = str(rng.choice(["ns", "ew", "vt", "ns"]))
+        j = int(rng.integers(0, len(recs[k][comp])))
+        recs[k][comp] = list(recs[k][comp]); recs[k][comp][j] = float(rng.choice([np.nan, np.inf, -np.inf]))
     fft = [None, dict(n=65536), dict(n=None)][int(rng.integers(0, 3))] if True else None
     max_n = max(len(r["vt"]) for r in recs)
     nfft = pg.predicted_nfft(fft, max_n)
@@ -92,6 +98,15 @@ def check_case(ctx, c, rng):
         return
     if isinstance(r1["result"], str):
         return
+    if ctx.evaluations % 4 == 0 and all(np.all(np.isfinite(r[k])) for r in c["records"] for k in ("ns", "ew", "vt")):
+        # the result is a function of what the recordings hold when process() is called: same objects edited in place and processed again vs fresh objects
+        bad = pg.edited_reprocess_probe(c, np.random.default_rng(ctx.seed + ctx.evaluations))
+        ctx.supporting["edited_reprocess_cases"] = ctx.supporting.get("edited_reprocess_cases", 0) + 1
+        if bad is not None:
+            ctx.violation("same-call-same-result", dict(case=c, why="recording objects edited in place after a first process() and processed again do not give the result of "
+                                                                   "fresh objects holding the edited samples", **{k: v for k, v in bad.items() if k != "edited_records"}),
+                          seam="hvsrpy.process on edited recording objects")
+            return
     res1 = r1["obj"]
     # aliasing between result and inputs / settings
     inputs = [getattr(r, k).amplitude for r in srecords for k in ("ns", "ew", "vt")]
